@@ -132,7 +132,9 @@ class _FunctionCall(object):
             # this reconstruction is quite costly. I wonder whether it's a
             # problem though.
 
-            _type_info = ctx.descriptor.in_message._type_info
+            # (the flat type info: a bare argument class may have parents)
+            in_message = ctx.descriptor.in_message
+            _type_info = in_message.get_flat_type_info(in_message)
             # an argument that is not passed is what its type says it is when
             # absent, just like over the wire
             ctx.in_object = [v.Attributes.default for v in _type_info.values()]
